@@ -16,7 +16,9 @@ RULE = ("For every helper of the legacy function layer (ebb_motion) and of the E
         "weighted on 0, +-1 and the range ends, optional arguments None / 0 / non-zero; the bytes written to "
         "a port that acknowledges everything are compared byte-for-byte with a table written from the EBB "
         "command documentation, and the two layers are compared with each other. Exhaustive: pauses n in "
-        "-5..3000, resolutions (-3..9)^2, pins, clear values, HM positions. Non-trivial: a case with a zero, "
+        "-5..3000, resolutions (-3..9)^2, pins, clear values, HM positions. Sequences of 2..12 helper calls on one "
+        "port / one EBB3 object with repeated argument values: every call must still emit its documented text "
+        "(nothing remembered from earlier calls may change what is sent). Non-trivial: a case with a zero, "
         "negative or absent optional argument, a clamped resolution, or n > 750.")
 ASSUMPTIONS = [
     "arguments are integers (None for an absent optional argument)",
@@ -26,7 +28,8 @@ ASSUMPTIONS = [
     "to be among CU,50,0 / QE / EM,r2,r2",
 ]
 REQUIRED_CLASSES = ["nontrivial", "optional_zero", "optional_absent", "optional_nonzero", "pause>750",
-                    "pause<=0", "clamped", "lm_suppressed", "lm_sent", "cross_layer", "no_port"]
+                    "pause<=0", "clamped", "lm_suppressed", "lm_sent", "cross_layer", "no_port", "sequence",
+                    "sequence_repeats_a_call"]
 QUICK_SHARDS = 4
 
 ebb_motion = sut.load("ebb_motion")
@@ -278,6 +281,98 @@ def motors_body(ctx, case):
         ctx.fail("%s recorded an error: %r" % (what, obj.err), case)
 
 
+def sequence_body(ctx, case):
+    """A sequence of helper calls on ONE port / ONE EBB3 object: every call must emit its documented text,
+    whatever was sent before (repeated values, interleaved helpers)."""
+    layer, steps = case["layer"], case["steps"]
+    table = LEGACY if layer == "legacy" else EBB3
+    repeated = any(steps[i] in steps[:i] for i in range(1, len(steps)))
+    classes = {"sequence", "layer_" + layer}
+    if repeated:
+        classes.add("sequence_repeats_a_call")
+    ctx.record(case, classes, nontrivial=repeated)
+    if layer == "legacy":
+        board = Board("legacy", version="2.8.1", lenient=True)
+        port = FakePort(board)
+        obj = None
+    else:
+        obj, port, board = em.new_connected(Board("ebb3", lenient=True))
+    done = []
+    for name, args in steps:
+        expected = table[name][1](*args)
+        port.begin_call()
+        before = len(port.writes)
+        if layer == "legacy":
+            call_sut(getattr(ebb_motion, name), port, *args)
+        else:
+            call_sut(getattr(obj, name), *args)
+        got = texts(port.writes[before:])
+        want = [e + "\r" for e in expected]
+        if got != want:
+            ctx.fail("after %r, %s.%s%r wrote %r, documented command text is %r"
+                     % (done, "ebb_motion" if layer == "legacy" else "EBBMotionWrap", name, tuple(args), got, want),
+                     case)
+        if obj is not None and obj.err is not None:
+            ctx.fail("after %r, %s%r recorded an error against an acknowledging device: %r"
+                     % (done, name, tuple(args), obj.err), case)
+        done.append([name, args])
+
+
+SEQ_SKIP = {"reboot", "bootload"}            # they close the port; covered by the single-call part
+
+
+@st.composite
+def sequences(draw):
+    layer = draw(st.sampled_from(["legacy", "ebb3"]))
+    table = LEGACY if layer == "legacy" else EBB3
+    names = sorted(n for n in table if n not in SEQ_SKIP)
+    focus = draw(st.lists(st.sampled_from(names), min_size=1, max_size=4))
+    steps = []
+    for _ in range(draw(st.integers(2, 12))):
+        name = draw(st.sampled_from(focus + focus + names))
+        previous = [a for n, a in steps if n == name]
+        if previous and draw(st.integers(0, 2)) > 0:
+            args = list(draw(st.sampled_from(previous)))
+        else:
+            args = [draw(strategy) for strategy in table[name][0]]
+        steps.append([name, args])
+    return {"layer": layer, "steps": steps}
+
+
+def sequence_grid():
+    """Every helper called twice with the same arguments, then once with other arguments, then again."""
+    fixed = {"PAUSE": 800}
+    for layer, table in (("legacy", LEGACY), ("ebb3", EBB3)):
+        for name, (strats, _f) in sorted(table.items()):
+            if name in SEQ_SKIP:
+                continue
+            samples = []
+            for variant in (0, 1):
+                args = []
+                for strategy in strats:
+                    if strategy is PAUSE:
+                        args.append(800 + variant)
+                    elif strategy is DUR:
+                        args.append(100 + variant)
+                    elif strategy is BIT:
+                        args.append(variant)
+                    elif strategy is PIN:
+                        args.append(3 + variant)
+                    elif strategy is RES:
+                        args.append(1 + variant)
+                    elif strategy is U16:
+                        args.append(12000 + variant)
+                    elif strategy in (I32, STEPS):
+                        args.append(50 + variant)
+                    else:
+                        args.append(None)
+                samples.append(args)
+            if any(a is None for a in samples[0]):
+                continue                     # helpers with ad-hoc strategies are covered by the generated part
+            a, b = samples
+            yield {"layer": layer, "steps": [[name, a], [name, a], [name, b], [name, a], [name, a]]}
+
+
 @st.composite
 def cases(draw):
     layer = draw(st.sampled_from(["legacy", "ebb3"]))
@@ -327,10 +422,15 @@ def run(ctx):
     ctx.exhaustive("motors-grid", motors_grid(), motors_body,
                    "motors_enable (r1, r2) in (-2..8)^2 x 20 prior board motor states")
     ctx.given("generated", cases(), body, quick=3000, thorough=300000)
+    ctx.exhaustive("sequence-grid", sequence_grid(), sequence_body,
+                   "every helper: same arguments twice, other arguments, the first arguments again (one object)")
+    ctx.given("sequences", sequences(), sequence_body, quick=1500, thorough=150000)
 
 
 def replay(ctx, part, case):
-    if "r1" in case:
+    if "steps" in case:
+        sequence_body(ctx, case)
+    elif "r1" in case:
         motors_body(ctx, case)
     else:
         body(ctx, case)
